@@ -284,9 +284,9 @@ def check_C07(ctx):
     cases = text_batch(ctx, ctx.n(120, 6000), ctx.n(150, 8000), ctx.n(230, 12000))
     # big inputs: many declarations / deep type nesting within the property's bounds
     big = []
-    k = ctx.n(300, 1500)
+    k = ctx.n(60, 400)
     big.append('start A0\n' + ''.join('struct A%d(A%d)\n' % (i, i + 1) for i in range(k)) + 'struct A%d\nterminal T {}\n' % k)
-    depth = ctx.n(60, 250)
+    depth = ctx.n(40, 250)
     big.append('start A\nstruct A($X)\nterminal T { $X: ' + 'B<' * depth + 'u8' + '>' * depth + ' }\n')
     big.append('start A\nstruct A\nterminal T {}\n' + '// padding\n' * ctx.n(500, 5000))
     for b in big:
